@@ -22,6 +22,8 @@ func leaves(thorough bool) []*Node {
 		NSlice(TAny, NFloat(KFloat32, false, float64(float32(0.1))), NFloat(KFloat64, false, 0.1)), NSlice(TAny, NFloat(KFloat64, false, 0.3), NFloat(KFloat32, false, float64(float32(0.1)))),
 		str(""), str("a"), str("1"), str("true"), NStr(true, "a"), str("\u00e9"), str("a\xffb"),
 		NJSON("1"), NJSON("1.5"), NJSON("1e3"), NJSON("zz"),
+		// integer-SPELLED numbers beyond int64 (the documented fallback to float64 must still apply), and the last one inside
+		NJSON("9223372036854775808"), NJSON("-9223372036854775809"), NJSON("9223372036854775807"),
 		NNilAny(), NPtr(one), NNilPtr(TInt), NPtr(NPtr(one)), NPtr(str("a")),
 		NSlice(Sc(KUint8, false), NUint(KUint8, false, 'a')),
 		{T: Sc(KChan, false)}, {T: Sc(KFunc, false)}, {T: Sc(KComplex, false), F: 1},
@@ -49,7 +51,7 @@ func leaves(thorough bool) []*Node {
 		l = append(l,
 			NStr(true, ""),
 			NInt(KInt64, false, 1000), NUint(KUint8, false, 0), NFloat(KFloat32, false, 1), NFloat(KFloat64, false, -1),
-			str("abc"), str("a+"), str("1.5"), str("/a/b"), NJSON("-1"), NJSON("99999999999999999999"),
+			str("abc"), str("a+"), str("1.5"), str("/a/b"), NJSON("-1"), NJSON("99999999999999999999"), NJSON("18446744073709551615"), NJSON("1E400"), NJSON("Inf"), NJSON("0x10"), NJSON("1_0"), NJSON(""),
 			NPtr(NStr(true, "a")), NPtr(NPtr(str("a"))), NNilPtr(TStr), NPtr(NNilPtr(TInt)),
 			&Node{T: Sc(KChan, false), Nil: true}, &Node{T: Sc(KFunc, false), Nil: true},
 			NSlice(Sc(KInt8, false), NInt(KInt8, false, 97)), NSlice(Sc(KUint16, false), NUint(KUint16, false, 97)),
